@@ -172,6 +172,7 @@ parsec_arena_release_chunk(parsec_arena_t* arena,
 {
     TRACE_FREE(arena_memory_unused_key, -arena->elem_size*chunk->count, chunk);
 
+    PARSEC_VERIF_POINT(PARSEC_VERIF_K_READ, &arena->released);  /* plain read of released below (check-then-increment) */
     if( (chunk->count == 1) && (arena->released < arena->max_released) ) {
         PARSEC_DEBUG_VERBOSE(10, parsec_debug_output, "Arena:\tpush a data of size %zu from arena %p, aligned by %zu, base ptr %p, data ptr %p, sizeof prefix %zu(%zd)",
                 arena->elem_size, arena, arena->alignment, chunk, chunk->data, sizeof(parsec_arena_chunk_t),
